@@ -647,8 +647,13 @@ class FunctionDefinition(TypedExpression):
         )
         output_multiline = False
         output_inline_preview: str | None = None
-        if self.output is not None and args_are_formals:
-            # Only the formals layout depends on whether the body spans lines.
+        if (
+            self.output is not None
+            and args_are_formals
+            and self.breaks_after_semicolon is None
+            and not output_has_scope
+        ):
+            # Only the inferred line break depends on whether the body spans lines.
             output_inline_preview = self.output.rebuild(indent=base_indent, inline=True)
             output_multiline = "\n" in output_inline_preview
 
